@@ -138,6 +138,10 @@ func (e *Exec) goArg1(a Arg) (interface{}, bool) {
 		}
 		return it, true
 	case 'o':
+		// a value of a type no factory knows: a struct, or (every other entry) the nil interface
+		if len(e.Pool)%2 == 1 {
+			return nil, true
+		}
 		return otherType{1}, true
 	}
 	return nil, false
@@ -195,6 +199,9 @@ func (e *Exec) msg(i int) (*ast.DataMessage, bool) {
 
 // a private copy the library may keep or not; the original is scribbled over later
 func (e *Exec) lend(b []byte) []byte {
+	if len(b) == 0 {
+		return nil // "no bytes" is said with a nil slice
+	}
 	c := make([]byte, len(b))
 	copy(c, b)
 	if e.Opts.Mutate {
